@@ -218,6 +218,14 @@ impl<'tcx> Cx<'tcx> {
                         self.scalar(ty, si, &mut o);
                     } else {
                         o.push(("ptr", J::Bool(true)));
+                        if let rustc_middle::mir::interpret::Scalar::Ptr(ptr, _) = sc {
+                            let alloc_id = ptr.provenance.alloc_id();
+                            if let Some(rustc_middle::mir::interpret::GlobalAlloc::Static(sdid)) =
+                                tcx.try_get_global_alloc(alloc_id)
+                            {
+                                o.push(("static", s(self.path(sdid))));
+                            }
+                        }
                     }
                 }
                 ConstValue::ZeroSized => {
